@@ -359,37 +359,44 @@ pub struct RingMachine {
 }
 
 fn commit_alphabets(quick: bool) -> (Vec<Op>, Vec<Op>) {
+    let v1 = |s_off: i8, len: u8, fail: bool| Op::V1 { s_off, len, fail };
+    let v2 = |r: (i8, u8), c: (i8, u8), root_fails: bool| Op::V2 { r_off: r.0, r_len: r.1, c_off: c.0, c_len: c.1, root_fails };
     let mut first = vec![];
-    let lens: &[u8] = if quick { &[1, 2, 6] } else { &[1, 2, 5, 6] };
-    for fail in [false, true] {
-        for s_off in [0i8, -1] {
-            for &len in lens {
-                first.push(Op::V1 { s_off, len, fail });
+    if quick {
+        for (s_off, len) in [(0i8, 1u8), (0, 2), (0, 6), (-1, 2), (-1, 6)] {
+            first.push(v1(s_off, len, false));
+        }
+        for (s_off, len) in [(0i8, 2u8), (0, 6), (-1, 6)] {
+            first.push(v1(s_off, len, true));
+        }
+    } else {
+        for fail in [false, true] {
+            for s_off in [0i8, -1] {
+                for len in [1u8, 2, 5, 6] {
+                    first.push(v1(s_off, len, fail));
+                }
             }
         }
     }
     // not yet valid / longer than validation allows
-    first.push(Op::V1 { s_off: 1, len: 2, fail: false });
-    first.push(Op::V1 { s_off: 0, len: (SCALED_RANGE + 1) as u8, fail: false });
-    let child_windows: &[(i8, u8)] = if quick { &[(0, 2), (0, 6)] } else { &[(0, 1), (0, 2), (0, 5), (0, 6), (-1, 2), (-1, 6)] };
+    first.push(v1(1, 2, false));
+    first.push(v1(0, (SCALED_RANGE + 1) as u8, false));
+    let child_windows: &[(i8, u8)] = if quick { &[] } else { &[(0, 1), (0, 2), (0, 5), (0, 6), (-1, 2), (-1, 6)] };
     for root_fails in [false, true] {
-        for (r_off, r_len) in [(0i8, 1u8), (0, 6)] {
-            for &(c_off, c_len) in child_windows {
-                first.push(Op::V2 { r_off, r_len, c_off, c_len, root_fails });
+        if quick {
+            first.push(v2((0, 1), (0, 6), root_fails));
+            first.push(v2((0, 6), (0, 2), root_fails));
+        }
+        for r in [(0i8, 1u8), (0, 6)] {
+            for c in child_windows {
+                first.push(v2(r, *c, root_fails));
             }
         }
     }
     let later = if quick {
-        vec![
-            Op::V1 { s_off: 0, len: 1, fail: false },
-            Op::V1 { s_off: 0, len: 6, fail: false },
-            Op::V1 { s_off: -1, len: 2, fail: true },
-            Op::V1 { s_off: 0, len: 5, fail: true },
-            Op::V2 { r_off: 0, r_len: 1, c_off: 0, c_len: 6, root_fails: false },
-            Op::V2 { r_off: 0, r_len: 6, c_off: 0, c_len: 2, root_fails: true },
-        ]
+        vec![v1(0, 6, false)]
     } else {
-        first.clone()
+        vec![v1(0, 6, false), v1(0, 2, true), v2((0, 1), (0, 6), true), v2((0, 6), (0, 2), false)]
     };
     (first, later)
 }
@@ -456,7 +463,7 @@ impl RingMachine {
             first_commits,
             later_commits,
             max_commits: 2,
-            max_reuse: 2,
+            max_reuse: if quick { 1 } else { 2 },
             post_expiry: if quick { 0 } else { 1 },
         }
     }
@@ -577,7 +584,11 @@ impl Machine for RingMachine {
             ops.push(Op::Replay { slot: i as u8, resigned: true });
             if s.v2 && st.reuse_used < self.max_reuse {
                 ops.push(Op::ReuseSub { slot: i as u8, root_fails: false });
-                ops.push(Op::ReuseSub { slot: i as u8, root_fails: true });
+                // a transaction that must be rejected never starts executing: its manifest is irrelevant
+                let probe = Op::ReuseSub { slot: i as u8, root_fails: true };
+                if !self.carried(st, &probe).map_or(false, |c| RingMachine::must_reject(st, &c)) {
+                    ops.push(probe);
+                }
             }
         }
         if st.commits_used < self.max_commits {
@@ -817,7 +828,7 @@ fn layer2(ctx: &Ctx) -> (BfsStats, Value) {
     }
     ctx.merge(l);
     let n_items = fine.len();
-    let cap = ctx.pick(50.0, 1000.0);
+    let cap = std::env::var("MC_CAP_S").ok().and_then(|s| s.parse().ok()).unwrap_or(ctx.pick(50.0, 1000.0));
     let mut stats = explore_all(ctx, &scanning, fine, &op_code, cap);
     // explore_item counts each item's start state; they were counted in first_layer already
     stats.states = stats.states - n_items as u64 + first_layer.states;
@@ -950,7 +961,9 @@ fn layer3_run(sc: &Scenario) -> (Local, u64, u64) {
                 (Some(exe), _) => submit_executable(&mut sim, exe.clone()),
                 (None, Some(p)) => {
                     nonce += 1;
-                    let raw = build_v2(now, now + 1, nonce, p, false, false).0;
+                    // the new root's window contains `now` and overlaps the subintent's window, so that static
+                    // validation passes and the engine decides (also at the expiry epoch itself)
+                    let raw = build_v2(now.min(x.end - 1), now + 1, nonce, p, false, false).0;
                     submit(&mut sim, &validator, &raw)
                 }
                 _ => unreachable!(),
@@ -959,6 +972,7 @@ fn layer3_run(sc: &Scenario) -> (Local, u64, u64) {
             l.eval();
             match out {
                 Outcome::Rejected(r) => l.class(&format!("prod-ring:replay:reject:{r}")),
+                Outcome::Invalid(e) => mc_core::machinery_error(&format!("layer 3 replay transaction failed static validation: {e}")),
                 Outcome::Panicked(p) => l.violation(
                     format!("panic:{}", p.rsplit(" @ ").next().unwrap_or("?")),
                     format!("replay of {} (committed at {}, expiry {}) at epoch {now} crashed the engine: {p}", x.what, x.commit_epoch, x.end),
@@ -1101,7 +1115,8 @@ pub fn run(ctx: Ctx) -> ! {
     }
     let (l1_evals, l1_detail) = layer1(&ctx);
     let t1 = ctx.elapsed_s();
-    let (stats, l2_detail) = layer2(&ctx);
+    // development switch (never set by ./check): skip layer 2 to exercise the other layers alone
+    let (stats, l2_detail) = if std::env::var("MC_SKIP_L2").is_ok() { (BfsStats::default(), json!("skipped (MC_SKIP_L2)")) } else { layer2(&ctx) };
     let t2 = ctx.elapsed_s();
     let l3_detail = if ctx.quick() { json!("thorough tier only") } else { layer3(&ctx) };
     let t3 = ctx.elapsed_s();
